@@ -38,6 +38,9 @@ pub struct Cfg {
     /// (with crafted_fdt) the FDT announces the Content-MD5 of other bytes: a stale or wrong FDT
     #[serde(default)]
     pub wrong_md5: bool,
+    /// the content encoding is announced in the FDT only although the FTI travels in-band
+    #[serde(default)]
+    pub split_cenc: bool,
     /// replace the sender's FDT by a harness-written instance WITHOUT FEC-OTI attributes, so that
     /// the OTI only arrives in-band after the object has been attached to the FDT
     #[serde(default)]
@@ -65,7 +68,7 @@ pub fn prepare(c: &Cfg) -> Result<Prepared, String> {
     o.oti = Some(OtiSpec::new(c.scheme, c.e, c.b, c.parity, c.inband_fti));
     o.cenc = c.cenc;
     o.text = c.cenc != 0;
-    o.inband_cenc = c.inband_fti;
+    o.inband_cenc = c.inband_fti && !c.split_cenc;
     o.count = c.count;
     o.md5 = c.md5;
     let spec = RecSpec { sess: SessSpec::basic(OtiSpec::new(Scheme::NoCode, 1424, 64, 0, true)), objs: vec![o.clone()], polls_ms: vec![0] };
@@ -304,21 +307,26 @@ fn configs(thorough: bool) -> Vec<Cfg> {
                     }
                     if cenc == 0 && len > 0 && count == 1 {
                         // malformed and cache-exhausting histories (the writer is open when the receiver gives up)
-                        v.push(Cfg { scheme, e, b, parity, len, cenc, inband_fti, count, md5, order: 8, crafted_fdt: false, receive_twice: false, small_cache: false, wrong_md5: false });
+                        v.push(Cfg { scheme, e, b, parity, len, cenc, inband_fti, count, md5, order: 8, crafted_fdt: false, receive_twice: false, small_cache: false, wrong_md5: false, split_cenc: false });
                         for order in [0u8, 1, 7] {
-                            v.push(Cfg { scheme, e, b, parity, len: len + 5 * e as usize * b as usize, cenc, inband_fti, count, md5, order, crafted_fdt: false, receive_twice: false, small_cache: true, wrong_md5: false });
+                            v.push(Cfg { scheme, e, b, parity, len: len + 5 * e as usize * b as usize, cenc, inband_fti, count, md5, order, crafted_fdt: false, receive_twice: false, small_cache: true, wrong_md5: false, split_cenc: false });
+                        }
+                    }
+                    if cenc != 0 && inband_fti && len > 0 && count == 1 {
+                        for order in [0u8, 1, 2, 4] {
+                            v.push(Cfg { scheme, e, b, parity, len, cenc, inband_fti, count, md5, order, crafted_fdt: false, receive_twice: false, small_cache: false, wrong_md5: false, split_cenc: true });
                         }
                     }
                     for order in 0..7u8 {
-                        v.push(Cfg { scheme, e, b, parity, len, cenc, inband_fti, count, md5, order, crafted_fdt: false, receive_twice: false, small_cache: false, wrong_md5: false });
+                        v.push(Cfg { scheme, e, b, parity, len, cenc, inband_fti, count, md5, order, crafted_fdt: false, receive_twice: false, small_cache: false, wrong_md5: false, split_cenc: false });
                         if count == 2 && order <= 2 {
-                            v.push(Cfg { scheme, e, b, parity, len, cenc, inband_fti, count, md5, order, crafted_fdt: false, receive_twice: true, small_cache: false, wrong_md5: false });
+                            v.push(Cfg { scheme, e, b, parity, len, cenc, inband_fti, count, md5, order, crafted_fdt: false, receive_twice: true, small_cache: false, wrong_md5: false, split_cenc: false });
                         }
                         if inband_fti && md5 && order <= 2 && len > 0 {
-                            v.push(Cfg { scheme, e, b, parity, len, cenc, inband_fti, count, md5, order, crafted_fdt: true, receive_twice: false, small_cache: false, wrong_md5: true });
+                            v.push(Cfg { scheme, e, b, parity, len, cenc, inband_fti, count, md5, order, crafted_fdt: true, receive_twice: false, small_cache: false, wrong_md5: true, split_cenc: false });
                         }
                         if inband_fti && order <= 4 && (thorough || order != 1) {
-                            v.push(Cfg { scheme, e, b, parity, len, cenc, inband_fti, count, md5, order, crafted_fdt: true, receive_twice: false, small_cache: false, wrong_md5: false });
+                            v.push(Cfg { scheme, e, b, parity, len, cenc, inband_fti, count, md5, order, crafted_fdt: true, receive_twice: false, small_cache: false, wrong_md5: false, split_cenc: false });
                         }
                     }
                 }
